@@ -89,13 +89,21 @@ def run_case(spec, lines, out):
         sd = StockDefinition(name="s", dim_letters=tuple(dims.letters), time_letter="t",
                              subclass=InflowDrivenDSM if kind == "idsm" else StockDrivenDSM,
                              lifetime_model_class=cls, solver=spec.get("solver", "manual"))
-        stock = make_empty_stocks([sd], processes={}, dims=dims)["s"]
+        # a second stock of the same kind over the same dimensions is defined next to it: each has a lifetime model of its own
+        sd2 = StockDefinition(name="s_twin", dim_letters=tuple(dims.letters), time_letter="t",
+                              subclass=InflowDrivenDSM if kind == "idsm" else StockDrivenDSM,
+                              lifetime_model_class=cls, solver=spec.get("solver", "manual"))
+        built = make_empty_stocks([sd, sd2], processes={}, dims=dims)
+        stock, twin = built["s"], built["s_twin"]
         # the definition route builds the lifetime model with default inflow_at / n_pts
         stock.lifetime_model.inflow_at = spec["inflow_at"]
         stock.lifetime_model.n_pts_per_interval = spec["n_pts"]
         g_ = given(k_cur)
         stock.lifetime_model.set_prms(**g_)
         scramble(g_)
+        other_k = [k for k in range(len(spec["psets"])) if k != k_cur and prm_objs[k] is not None]
+        if other_k:
+            twin.lifetime_model.set_prms(**given(other_k[-1]))      # the twin's parameters are the twin's business
     else:
         g_ = given(k_cur)
         lm = cls(**kw, **g_)
